@@ -108,6 +108,12 @@ template<> struct TCall<2> { template<class TA, class TR, class T> static void g
 template<> struct TCall<3> { template<class TA, class TR, class T> static void go(const TA& A, const TA& B, TR& R, T*&) { R = Fastor::transpose(A + B); } };
 template<> struct TCall<4> { template<class TA, class TR, class T> static void go(const TA& A, const TA&, TR& R, T*&) { R = Fastor::ctranspose(A); } };
 template<> struct TCall<5> { template<class TA, class TR, class T> static void go(const TA& A, const TA&, TR& R, T*&) { R = Fastor::ctrans(A); } };
+template<> struct TCall<7> { template<class TA, class TR, class T> static void go(const TA& A, const TA&, TR& R, T*&) { R += Fastor::trans(A); } };
+template<> struct TCall<8> { template<class TA, class TR, class T> static void go(const TA& A, const TA&, TR& R, T*&) { R -= Fastor::trans(A); } };
+template<> struct TCall<9> { template<class TA, class TR, class T> static void go(const TA& A, const TA&, TR& R, T*&) { R *= Fastor::trans(A); } };
+template<> struct TCall<10> { template<class TA, class TR, class T> static void go(const TA& A, const TA&, TR& R, T*&) { R += Fastor::ctrans(A); } };
+template<> struct TCall<11> { template<class TA, class TR, class T> static void go(const TA& A, const TA&, TR& R, T*&) { R -= Fastor::ctrans(A); } };
+template<> struct TCall<12> { template<class TA, class TR, class T> static void go(const TA& A, const TA&, TR& R, T*&) { R *= Fastor::ctrans(A); } };
 template<> struct TCall<6> { template<class TA, class TR, class T> static void go(const TA& A, const TA&, TR& R, T*& res) {
     res = fenced<T>((size_t)R.size(), 0); Fastor::TensorMap<T, Fastor::get_tensor_dimensions<TR>::dims[0], Fastor::get_tensor_dimensions<TR>::dims[1]> dst(res); dst = Fastor::trans(A); } };
 }
@@ -117,17 +123,22 @@ template<> struct TCall<6> { template<class TA, class TR, class T> static void g
 template<typename T, size_t M, size_t N, int API>
 void run_tapi(unsigned seed) {
     using namespace Fastor;
-    static const char* names[] = {"", "transpose", "trans", "transpose_expr", "ctranspose", "ctrans", "map_trans"};
+    static const char* names[] = {"", "transpose", "trans", "transpose_expr", "ctranspose", "ctrans", "map_trans",
+                                  "add_trans", "sub_trans", "mul_trans", "add_ctrans", "sub_ctrans", "mul_ctrans"};
     std::printf("tapi cfg=%s%s std=%d T=%s M=%zu N=%zu nr=%d nc=%d api=%s seed=%u", CFGNAME, VR_TAG, VR_STD, vr::tname<T>::s(), M, N, (int)VR_NR, (int)VR_NC, names[API], seed);
     vr::guarded([&]{
         Tensor<T,M,N> A, B;
         for (size_t k = 0; k < M * N; ++k) { A.data()[k] = vr::mk<T>::at(k, seed); B.data()[k] = vr::mk<T>::at(k + 7, seed + 1); }
-        Tensor<T,N,M> R; T* res = R.data();
+        Tensor<T,N,M> R, R0; T* res = R.data();
+        for (size_t k = 0; k < M * N; ++k) { R.data()[k] = vr::mk<T>::at(k + 11, seed + 3); R0.data()[k] = R.data()[k]; }
         vr::TCall<API>::go(A, B, R, res);
         for (size_t i = 0; i < M; ++i) for (size_t j = 0; j < N; ++j) {
             T want = A.data()[i*N+j];
             if (API == 3) want = want + B.data()[i*N+j];
-            if (API == 4 || API == 5) want = vr::cj(want);
+            if (API == 4 || API == 5 || API >= 10) want = vr::cj(want);
+            if (API == 7 || API == 10) want = R0.data()[j*M+i] + want;
+            if (API == 8 || API == 11) want = R0.data()[j*M+i] - want;
+            if (API == 9 || API == 12) want = R0.data()[j*M+i] * want;
             if (!vr::same(res[j*M+i], want)) { std::printf(" | FAIL result(%zu,%zu) differs\n", j, i); return; }
         }
         std::printf(" | ok\n");
@@ -192,6 +203,34 @@ void run_preal(unsigned seed) {
             T want = A.data()[k]; if (EX) want = want + B.data()[k];
             if (!vr::same(R2.data()[k], want)) { std::printf(" | FAIL round trip differs at %zu\n", k); return; }
         }
+        std::printf(" | ok\n");
+    });
+}
+
+// the overloads for expressions that must be evaluated first: permute / permutation of trans(A) (requires_evaluation),
+// and conjugate transposition of the last two extents of a higher-order tensor
+template<typename T, int KIND, size_t M, size_t N>
+void run_peval(unsigned seed) {
+    using namespace Fastor;
+    std::printf("peval cfg=%s%s std=%d T=%s kind=%s M=%zu N=%zu seed=%u", CFGNAME, VR_TAG, VR_STD, vr::tname<T>::s(), KIND ? "legacy" : "new", M, N, seed);
+    vr::guarded([&]{
+        Tensor<T,M,N> A;
+        for (size_t k = 0; k < M * N; ++k) A.data()[k] = vr::mk<T>::at(k, seed);
+        Tensor<T,M,N> R = vr::PCall<KIND,0>::template go<Index<1,0>>(trans(A), trans(A));
+        for (size_t k = 0; k < M * N; ++k) if (!vr::same(R.data()[k], A.data()[k])) { std::printf(" | FAIL offset %zu\n", k); return; }
+        std::printf(" | ok\n");
+    });
+}
+template<typename T, size_t B0, size_t J>
+void run_ctbatch(unsigned seed) {
+    using namespace Fastor;
+    std::printf("ctbatch cfg=%s%s std=%d T=%s B=%zu J=%zu seed=%u", CFGNAME, VR_TAG, VR_STD, vr::tname<T>::s(), B0, J, seed);
+    vr::guarded([&]{
+        Tensor<T,B0,J,J> A;
+        for (size_t k = 0; k < B0 * J * J; ++k) A.data()[k] = vr::mk<T>::at(k, seed);
+        Tensor<T,B0,J,J> R = ctranspose(A);
+        for (size_t b = 0; b < B0; ++b) for (size_t i = 0; i < J; ++i) for (size_t j = 0; j < J; ++j)
+            if (!vr::same(R.data()[b*J*J + j*J + i], vr::cj(A.data()[b*J*J + i*J + j]))) { std::printf(" | FAIL block %zu (%zu,%zu)\n", b, j, i); return; }
         std::printf(" | ok\n");
     });
 }
